@@ -199,7 +199,27 @@ def coq_props(group, propfile):
     return ok, assum, out, theorems, pins
 
 
-def proof_gate(group, propfile, force=False):
+def coqchk(group, propfile, timeout=2400):
+    """independent re-check of the compiled property file and everything it depends on; returns (status, axioms text)"""
+    d = coq_dir(group)
+    lp = None
+    for l in open(os.path.join(d, "_CoqProject")):
+        l = l.strip()
+        if l.startswith("-Q") or l.startswith("-R"):
+            lp = l.split()[2]
+    mod = "%s.%s" % (lp, propfile[:-2])
+    try:
+        rc, out = sh(["timeout", str(timeout), "coqchk", "-silent", "-o", "-Q", ".", lp, mod], cwd=d, timeout=timeout + 60)
+    except subprocess.TimeoutExpired:
+        return "timeout", ""
+    if rc == 124:
+        return "timeout", ""
+    m = re.search(r"\* Axioms:(.*?)\n\s*\n\* Constants", out, re.S)
+    ax = m.group(1).strip() if m else "?"
+    return ("ok" if rc == 0 else "failed"), ax
+
+
+def proof_gate(group, propfile, force=False, chk=False):
     """Returns dict(ok, obligations, discharged, theorems, axioms, problems)."""
     problems = []
     bad = forbidden_scan(group)
@@ -219,8 +239,19 @@ def proof_gate(group, propfile, force=False):
             if a not in AXIOM_ALLOW and a.split(".")[-1] not in AXIOM_ALLOW:
                 problems.append("theorem %s depends on non-allowlisted axiom %s" % (t, a))
     nthm = len(theorems)
-    return dict(ok=not problems, obligations=max(nthm, 1), discharged=(nthm if pok else 0),
-                theorems=theorems, axioms=axioms, problems=problems, pins=pins)
+    res = dict(ok=not problems, obligations=max(nthm, 1), discharged=(nthm if pok else 0),
+               theorems=theorems, axioms=axioms, problems=problems, pins=pins)
+    if chk and pok:
+        st, ax = coqchk(group, propfile)
+        res["coqchk"] = dict(status=st, axioms=ax)
+        if st == "failed":
+            problems.append("coqchk rejects the compiled %s" % propfile)
+        elif st == "ok" and ax not in ("<none>", ""):
+            for a in re.findall(r"[\w.]+", ax):
+                if a not in AXIOM_ALLOW and a.split(".")[-1] not in AXIOM_ALLOW:
+                    problems.append("coqchk reports non-allowlisted axiom %s" % a)
+        res["ok"] = not problems
+    return res
 
 
 def coq_eval(group, text, name="cases", timeout=600):
